@@ -76,7 +76,12 @@ def case_preserve_ratio(rng, adversarial):
     kind = rng.choice(['root', 'root', 'root', 'nested', 'explicit', 'marker'])
     width, height = abs(real.length(rng, adversarial)), abs(real.length(rng, adversarial))
     params = {'kind': kind, 'par': gen_par(rng, adversarial), 'viewbox': gen_viewbox(rng, adversarial),
-              'width': width, 'height': height, 'intrinsic': [None, None], 'marker': None, 'explicit': None}
+              'width': width, 'height': height, 'intrinsic': [None, None], 'marker': None, 'explicit': None,
+              'parent_par': None}
+    if kind != 'root' and rng.random() < 0.6:
+        # the enclosing <svg> has its own preserveAspectRatio (and viewBox): neither is inherited (SVG 1.1
+        # property index: preserveAspectRatio is an attribute, not a property)
+        params['parent_par'] = rng.choice([a + m for a in ALIGNS + ['none'] for m in ('', ' slice')])
     if kind == 'root':
         params['intrinsic'] = [rng.choice([None, dyadic(rng), dyadic(rng)]), rng.choice([None, dyadic(rng), dyadic(rng)])]
     elif kind == 'explicit':
@@ -94,20 +99,22 @@ def run_preserve_ratio(params):
     width, height = Q(params['width']), Q(params['height'])
     intrinsic, marker, explicit = params['intrinsic'], params['marker'], params['explicit']
     vb_attr = None if viewbox is None else ' '.join(num(v) for v in viewbox)
+    parent = params.get('parent_par')
+    outer = f"<svg {NS}>" if parent is None else f"<svg {NS} viewBox='0 0 40 20' preserveAspectRatio='{parent}'>"
     if kind == 'root':
         iw, ih = intrinsic
         source = (f"<svg {NS} {attrs(viewBox=vb_attr, preserveAspectRatio=par, width=None if iw is None else num(iw), height=None if ih is None else num(ih))}>"
                   "</svg>")
         pick = lambda svg: svg.tree  # noqa: E731
     elif kind == 'nested':
-        source = (f"<svg {NS}><svg {attrs(viewBox=vb_attr, preserveAspectRatio=par, width='10', height='10')}>"
+        source = (f"{outer}<svg {attrs(viewBox=vb_attr, preserveAspectRatio=par, width='10', height='10')}>"
                   "</svg></svg>")
         pick = lambda svg: next(iter(svg.tree))  # noqa: E731
     elif kind == 'explicit':
-        source = f"<svg {NS}><image {attrs(preserveAspectRatio=par)}/></svg>"
+        source = f"{outer}<image {attrs(preserveAspectRatio=par)}/></svg>"
         pick = lambda svg: next(iter(svg.tree))  # noqa: E731
     else:
-        source = (f"<svg {NS}><marker {attrs(viewBox=vb_attr, preserveAspectRatio=par, refX=num(marker[0]), refY=num(marker[1]))}>"
+        source = (f"{outer}<marker {attrs(viewBox=vb_attr, preserveAspectRatio=par, refX=num(marker[0]), refY=num(marker[1]))}>"
                   "</marker></svg>")
         pick = lambda svg: next(iter(svg.tree))  # noqa: E731
 
@@ -121,9 +128,16 @@ def run_preserve_ratio(params):
         return ok(' '.join(fmt(v) for v in result))
     out = docs.outcome(run)
     effective = list(explicit) if explicit is not None else ([] if viewbox is None else viewbox)
-    line = sx.line('svgratio', effective, kind == 'root', intrinsic[0], intrinsic[1], par_wire(par),
-                   'none' if marker is None else list(marker), width, height)
+    if parent is None:
+        line = sx.line('svgratio', effective, kind == 'root', intrinsic[0], intrinsic[1], par_wire(par),
+                       'none' if marker is None else list(marker), width, height)
+    else:
+        # nested under an element with its own preserveAspectRatio: the model applies Node.cascade itself
+        line = sx.line('svgratioc', effective, [cps(parent), cps(par)], 'none' if marker is None else list(marker),
+                       width, height)
     tags = [f'svgratio:{kind}', 'svgratio:par-' + ('absent' if par is None else (par.split() or ['empty'])[0][:9])]
+    if parent is not None:
+        tags.append('svgratio:parent-par' + ('-child-absent' if par is None else ''))
     if out.startswith('err'):
         tags.append('svgratio:' + out)
     return line, out, {'fn': 'preserve_ratio', 'svg': source, 'params': params}, bool(effective), tags
@@ -165,6 +179,8 @@ def run_svg_draw(params):
 def case_svg_image(rng, adversarial):
     """`svg/images.py::image`: an `<image>` element referencing a (stub) image."""
     return run_svg_image({'par': gen_par(rng, False),
+                          'parent_par': rng.choice([None, None] + [a + m for a in ALIGNS + ['none']
+                                                                    for m in ('', ' slice')]),
                           'width': rng.choice([None, dyadic(rng), dyadic(rng, True, adversarial)]),
                           'height': rng.choice([None, dyadic(rng), dyadic(rng, True, adversarial)]),
                           'intr': list(real.intrinsic(rng, adversarial))})
@@ -173,7 +189,9 @@ def case_svg_image(rng, adversarial):
 def run_svg_image(params):
     par, width, height = params['par'], params['width'], params['height']
     intr = tuple(None if v is None else Q(v) for v in params['intr'])
-    source = (f"<svg {NS}><image href='data:,x' {attrs(preserveAspectRatio=par, width=None if width is None else num(width), height=None if height is None else num(height))}/>"
+    parent = params.get('parent_par')
+    outer = f"<svg {NS}>" if parent is None else f"<svg {NS} preserveAspectRatio='{parent}'>"
+    source = (f"{outer}<image href='data:,x' {attrs(preserveAspectRatio=par, width=None if width is None else num(width), height=None if height is None else num(height))}/>"
               "</svg>")
     stub = real.StubImage(intr)
 
@@ -225,21 +243,131 @@ def run_svg_image(params):
     return cases
 
 
-def finding_par_inherited():
-    """Known finding: a nested <svg> (or <image>) without preserveAspectRatio inherits its ancestor's value
-    (the attribute is not inheritable in SVG).  True while it still fails."""
-    source = (f"<svg {NS} viewBox='0 0 4 4' preserveAspectRatio='xMaxYMin slice'>"
-              "<svg viewBox='0 0 2 2' width='3' height='1'><rect width='1' height='1'/></svg></svg>")
-    image = build_svg(source)
-    nested = next(iter(image._svg.tree))
-    return nested.get('preserveAspectRatio', 'xMidYMid') != 'xMidYMid'
+# ---------------------------------------------------------------------------------------------
+# Node.cascade: which attributes an element hands down to its children
+
+VIEWPORT_ATTRIBUTES = ['preserveAspectRatio', 'viewBox', 'width', 'height', 'x', 'y', 'transform']
+OTHER_NOT_INHERITED = ['opacity', 'id', 'clip-path', 'mask', 'filter', 'overflow', 'href', 'dx', 'rotate']
+INHERITED_ATTRIBUTES = ['fill-opacity', 'stroke-width', 'font-size', 'visibility', 'stroke-linecap', 'data-x',
+                        'fill-rule', 'text-anchor']
+ATTRIBUTE_VALUES = ['a', 'b c', '1', 'xMaxYMin slice', '0 0 4 4', 'inherit', 'inherit', 'none', '']
+
+
+def cps(text):
+    return 'none' if text is None else [ord(c) for c in text]
+
+
+def case_svg_attr(rng, adversarial=False):
+    """The real `Node` tree: an attribute written (or not) on each element of a chain of nested elements, read
+    on the innermost one after the cascade."""
+    k = rng.random()
+    key = rng.choice(VIEWPORT_ATTRIBUTES if k < 0.45 else OTHER_NOT_INHERITED if k < 0.65 else INHERITED_ATTRIBUTES)
+    depth = rng.choice([2, 2, 3, 4])
+    chain = [rng.choice([None, None] + ATTRIBUTE_VALUES) for _ in range(depth)]
+    if all(v is None for v in chain):
+        chain[rng.randrange(depth - 1)] = rng.choice(ATTRIBUTE_VALUES)
+    tags = ['svg'] + [rng.choice(['g', 'svg', 'g']) for _ in range(depth - 1)]
+    return run_svg_attr({'key': key, 'chain': chain, 'tags': tags})
+
+
+def run_svg_attr(params):
+    key, chain, tags = params['key'], params['chain'], params['tags']
+    source = ''
+    for index, (tag, value) in enumerate(zip(tags, chain)):
+        source += f"<{tag}{' ' + NS if index == 0 else ''}{'' if value is None else f' {key}=' + chr(34) + value + chr(34)}>"
+    source += ''.join(f'</{tag}>' for tag in reversed(tags))
+
+    def run():
+        node = build_svg(source)._svg.tree
+        for _ in tags[1:]:
+            node = next(iter(node))
+        value = node.get(key)
+        return 'ok none' if value is None else 'ok (' + ' '.join(str(ord(c)) for c in value) + ')'
+    out = docs.outcome(run)
+    line = sx.line('svgattr', cps(key), [cps(v) for v in chain])
+    return (line, out, {'fn': 'svg.Node.cascade', 'svg': source, 'params': params}, chain[-1] is None,
+            [f'svgattr:{key}' if key in VIEWPORT_ATTRIBUTES else 'svgattr:other',
+             'svgattr:own-' + ('absent' if chain[-1] is None else 'inherit' if chain[-1] == 'inherit' else 'set')])
+
+
+def case_svg_image_element(rng, adversarial=False):
+    """`svg/images.py::image` with and without an `href`, with a loader that returns an image or `None`:
+    is the loader asked, and is anything drawn."""
+    return run_svg_image_element({
+        'href': rng.choice(['data:,x', 'data:,x', None, '', 'xlink']), 'loaded': rng.random() < 0.8,
+        'width': rng.choice([None, dyadic(rng)]), 'height': rng.choice([None, dyadic(rng)]),
+        'intr': list(real.intrinsic(rng, adversarial))})
+
+
+def run_svg_image_element(params):
+    href, loaded, width, height = params['href'], params['loaded'], params['width'], params['height']
+    intr = tuple(None if v is None else Q(v) for v in params['intr'])
+    link = {None: '', '': "href=''", 'xlink': "xmlns:xlink='http://www.w3.org/1999/xlink' xlink:href='data:,y'"}.get(
+        href, f"href='{href}'")
+    source = (f"<svg {NS}><image {link} {attrs(width=None if width is None else num(width), height=None if height is None else num(height))}/>"
+              "</svg>")
+    stub = real.StubImage(intr)
+    asked = []
+
+    class Context:
+        @staticmethod
+        def get_image_from_uri(url, forced_mime_type=None):
+            asked.append(url)
+            return stub if loaded else None
+
+    def run():
+        from weasyprint.svg.images import image as draw_image
+        image = build_svg(source)
+        svg = image._svg
+        svg.tree.set_svg_size(svg, Q(100), Q(100))
+        svg.stream = real.new_stream()
+        svg.context = Context
+        node = next(iter(svg.tree))
+        rects = []
+        original = svg.stream.rectangle
+        svg.stream.rectangle = lambda *a: (rects.append(a), original(*a))[1]
+        draw_image(svg, node, Q(16))
+        assert len(asked) <= 1 and all(asked), asked              # never asked for None / ''
+        flag = str(bool(asked)).lower()
+        if not stub.draws:
+            assert not rects
+            return f'ok {flag} none'
+        (target, dw, dh, rendering), = stub.draws
+        (x0, y0, w, h), = rects
+        return 'ok ' + flag + ' ' + ' '.join(fmt(real.exact(v)) for v in (w, h, dw, dh))
+    out = docs.outcome(run)
+    has_href = bool(href)
+    line = sx.line('svgimagee', has_href, loaded, width or 0, height or 0, *intr)
+    return (line, out, {'fn': 'svg.images.image.element', 'svg': source, 'params': params}, not has_href or not loaded,
+            ['svgimagee:' + ('no-href' if not has_href else 'not-loaded' if not loaded else 'drawn')] +
+            (['svgimagee:' + out] if out.startswith('err') else []))
+
+
+def regression_par_inherited():
+    """Fixed finding svg-preserveaspectratio-inherited (358a995): a nested <svg> / <image> / <marker> without
+    preserveAspectRatio took its ancestor's value.  -> regression cases: the input of the former replay
+    (nested <svg viewBox='0 0 2 2'> of 3 x 1 inside a root with 'xMaxYMin slice') and its <image> / <marker>
+    variants, through the ordinary `svgratio` protocol."""
+    cases = []
+    for kind in ('nested', 'explicit', 'marker'):
+        params = {'kind': kind, 'par': None, 'viewbox': [Fraction(0), Fraction(0), Fraction(2), Fraction(2)],
+                  'width': Fraction(3), 'height': Fraction(1), 'intrinsic': [None, None], 'marker': None,
+                  'explicit': None, 'parent_par': 'xMaxYMin slice'}
+        if kind == 'explicit':
+            params['viewbox'], params['explicit'] = None, [Fraction(0), Fraction(0), Fraction(2), Fraction(2)]
+        if kind == 'marker':
+            params['marker'] = [Fraction(1), Fraction(1)]
+        line, out, meta, _, _ = run_preserve_ratio(params)
+        meta['regression'] = 'svg-preserveaspectratio-inherited'
+        cases.append((line, out, meta, True, ['regression:svg-preserveaspectratio-inherited']))
+    return cases
 
 
 def _revive(x):
     """Parameters that went through JSON (Fractions as strings) -> numbers again."""
     import re
     if isinstance(x, dict):
-        return {k: (v if k in ('kind', 'par') else _revive(v)) for k, v in x.items()}
+        return {k: (v if k in ('kind', 'par', 'parent_par', 'key', 'chain', 'tags', 'href') else _revive(v)) for k, v in x.items()}
     if isinstance(x, list):
         return [_revive(v) for v in x]
     if isinstance(x, str) and re.match(r'^-?\d+(/\d+)?$', x):
@@ -252,6 +380,10 @@ def replay(meta):
     params = _revive(meta['params'])
     if meta['fn'] == 'preserve_ratio':
         return [run_preserve_ratio(params)[:2]]
+    if meta['fn'] == 'svg.Node.cascade':
+        return [run_svg_attr(params)[:2]]
+    if meta['fn'] == 'svg.images.image.element':
+        return [run_svg_image_element(params)[:2]]
     if meta['fn'] == 'SVG.draw':
         return [run_svg_draw(params)[:2]]
     return [c[:2] for c in run_svg_image(params)]
